@@ -2669,6 +2669,13 @@ impl TypeCheckVisitor<'_> {
 }
 
 fn enum_payload_type(env: &Env, scrutinee_ty: &Type, variant_sym: &Symbol) -> Type {
+    // A scrutinee of type NoValue never produces a value, so no case
+    // runs. Use the bottom type for payloads rather than an error
+    // type, which would silently unify with everything afterwards.
+    if scrutinee_ty.is_no_value() {
+        return Type::no_value();
+    }
+
     let Some(scrutinee_ty_name) = scrutinee_ty.type_name() else {
         return Type::error(
             "No type name for match scrutinee, we should have errored elsewhere already.",
